@@ -225,3 +225,73 @@ func harnessScanLayout() {
 	}
 	checkStream(l, text, exp, "layout (style "+itoa(style)+", size "+itoa(size)+")")
 }
+
+// harnessScanInvalid: up to scanInvN arbitrary ASCII bytes, then one byte that cannot begin a UTF-8
+// character (or a leading byte followed by an ASCII character), then a concrete tail.  The scanner returns
+// the tokens that are complete before the bad byte, then an error that names the position of the bad byte
+// (unless stray text earlier is an error of its own); it never returns a token that begins after it, and
+// never reports a plain end of input.
+func harnessScanInvalid() {
+	n := verif.Len("n", 0, scanInvN)
+	pre := verif.Bytes("b", n)
+	for i := range pre {
+		verif.Assume(verif.And(pre[i] >= 1, pre[i] <= 0x7F))
+	}
+	// one representative of each kind of byte >= 0x80: continuation bytes, overlong leads, 2/3/4-byte leads, bytes that never occur
+	bad := []byte{0x80, 0xBF, 0xC0, 0xC3, 0xE2, 0xF0, 0xF5, 0xFF}[verif.Pick("bad", 8)]
+	// continuation bytes and F8..FF can never begin a character; a leading byte (C2..F4) followed by an ASCII byte cannot either
+	tail := scanTails[verif.Pick("tail", len(scanTails))]
+	text := append(append(append([]byte{}, pre...), bad), 'x')
+	text = append(text, tail...)
+	exp := refScan(pre, 0, 1, 1)
+	// position of the bad byte
+	line, col := 1, 1
+	for _, c := range pre {
+		if verif.ConcretizeByte(c) == '\n' {
+			line++
+			col = 1
+		} else {
+			col++
+		}
+	}
+	ownError := false
+	if len(exp) > 0 {
+		last := exp[len(exp)-1]
+		if last.kind == "" && last.end < len(pre) {
+			ownError = true // stray text before the bad byte: that error comes first
+		} else if last.end == len(pre) {
+			exp = exp[:len(exp)-1] // the element the bad byte interrupts is not delivered
+		}
+	}
+	l, err := New("f", &memReader{data: text})
+	verif.Assert(err == nil, "the scanner cannot be constructed for a non-empty text")
+	if err != nil {
+		return
+	}
+	if ownError {
+		checkStream(l, pre, exp, "scan before an invalid byte")
+		return
+	}
+	for k := 0; k <= len(exp); k++ {
+		tok, err := l.NextToken()
+		if k == len(exp) {
+			verif.Reach("invalid byte reached")
+			verif.Assert(err != nil && err != io.EOF, "a byte that is not UTF-8 is passed over instead of being reported")
+			if err == nil || err == io.EOF {
+				return
+			}
+			want := "f:" + itoa(line) + ":" + itoa(col) + ":"
+			verif.Assert(strings.Contains(err.Error(), want), "the error for a byte that is not UTF-8 must name its position ("+want+")")
+			return
+		}
+		e := exp[k]
+		if err != nil {
+			if e.kind == "TOKEN" && e.end-e.start == 1 {
+				verif.Tag("KF:C05-one-letter-token")
+			}
+			verif.Fail("the scanner fails before the invalid byte where the documentation defines a token of kind " + e.kind)
+			return
+		}
+		verif.Assert(string(tok.Terminal) == e.kind && tok.Pos.Offset == e.start, "wrong token before an invalid byte, the documentation defines "+e.kind)
+	}
+}
